@@ -631,8 +631,15 @@ func (g *Gen) suffix(v ast.Vertex, indirect, noCall, varOnly bool) ast.Vertex {
 		return &ast.ExprClassConstFetch{Class: v, DoubleColonTkn: g.tok(token.T_PAAMAYIM_NEKUDOTAYIM, "::"), Const: g.memberName()}
 	default:
 		if php5ish {
-			if _, simple := v.(*ast.ExprVariable); !simple {
+			_, simple := v.(*ast.ExprVariable)
+			// PHP 5 also calls an element of a plain chain: $f[0](), $a->b[0]($x), $a->b->c['k'][1]()
+			// (object_dim_list followed by method_or_not); the tree is the PHP 7 one
+			_, dim := v.(*ast.ExprArrayDimFetch)
+			if !simple && !(dim && plainChain(v)) {
 				return v
+			}
+			if dim {
+				g.feat("php5-call-on-chain-element")
 			}
 		}
 		if g.inString > 0 {
@@ -648,6 +655,29 @@ func (g *Gen) suffix(v ast.Vertex, indirect, noCall, varOnly bool) ast.Vertex {
 		n.Args, n.SeparatorTkns = g.Args()
 		return n
 	}
+}
+
+// plainChain reports whether v is $name followed only by [..] / {..} dimensions and ->name / ->{expr}
+// property links: no call, no variable-variable, no ->$name, no static member (those group differently
+// in PHP 5 or cannot be followed by a call there).
+func plainChain(v ast.Vertex) bool {
+	for v != nil {
+		switch n := v.(type) {
+		case *ast.ExprVariable:
+			_, id := n.Name.(*ast.Identifier)
+			return n.DollarTkn == nil && id
+		case *ast.ExprArrayDimFetch:
+			v = n.Var
+		case *ast.ExprPropertyFetch:
+			if _, isVar := n.Prop.(*ast.ExprVariable); isVar && n.OpenCurlyBracketTkn == nil {
+				return false
+			}
+			v = n.Var
+		default:
+			return false
+		}
+	}
+	return false
 }
 
 // rootedAtVariable reports whether a chain starts at a plain variable.
@@ -870,7 +900,19 @@ func (g *Gen) Array() ast.Vertex {
 			n.SeparatorTkns = append(n.SeparatorTkns, g.ch(','))
 		}
 	}
+	g.arrayTrailingComma(n)
 	return n
+}
+
+// arrayTrailingComma adds (1 time in 4) a trailing comma to a non-empty array literal. Both grammars
+// of this parser represent it as a final item without key, value or position.
+func (g *Gen) arrayTrailingComma(n *ast.ExprArray) {
+	if len(n.Items) == 0 || !g.chance(1, 4, "arraytrail") {
+		return
+	}
+	g.feat("array-trailing-comma")
+	n.SeparatorTkns = append(n.SeparatorTkns, g.ch(','))
+	n.Items = append(n.Items, &ast.ExprArrayItem{})
 }
 
 // listTarget draws a destructuring target: list(...) or, under PHP 7, [...].
@@ -1036,6 +1078,7 @@ func (g *Gen) ConstExpr() ast.Vertex {
 					n.SeparatorTkns = append(n.SeparatorTkns, g.ch(','))
 				}
 			}
+			g.arrayTrailingComma(n)
 		}
 		return n
 	case 5:
